@@ -29,7 +29,7 @@ def parseDoc (j : Json) : Doc :=
 
 def parseEvent (j : Json) : Event :=
   { clock := jNat j "clock", sigTime := jNat j "time", ref := hexVal (jStr j "ref"), prevs := (jStrs j "prevs").map hexVal,
-    payloadHash := jStr j "payload", doc := parseDoc (jObj j "doc") }
+    payloadHash := "H:" ++ (parseDoc (jObj j "doc")).render, doc := parseDoc (jObj j "doc") }
 
 /-- the model instantiated with what the source says today: map ranges visit in insertion order, and exactly
     the fields the source sorts are sorted -/
@@ -38,8 +38,15 @@ def cfg : Cfg := cfgOf (fun _ l => l) Nuts.Facts.C10.mergeSortedFields
 structure St where
   last : String := "no-seq"
 
-def hashName (known : List String) (h : String) : String :=
-  if known.contains h then short h else h   -- merged hashes are already "M:<render>"
+/-- FNV-1a 64 over the UTF-8 bytes (same function in the Go harness): short names for content hashes -/
+def fnv64 (s : String) : UInt64 :=
+  s.toUTF8.foldl (fun h b => (h ^^^ b.toUInt64) * 1099511628211) 14695981039346656037
+
+def hex16 (n : UInt64) : String :=
+  String.ofList ((List.range 16).map fun i => hexDigit ((n.toNat / 16 ^ (15 - i)) % 16))
+
+def hashName (_known : List String) (h : String) : String :=
+  "H" ++ hex16 (fnv64 ((h.drop 2).toString))   -- h = "H:" ++ render
 
 def showResolve (known : List String) (r : Res (Doc × Meta)) : String :=
   match r with
